@@ -13,7 +13,7 @@ from .common import VENV_PY, VERIF
 S = {"type": "string"}
 KIND_SCHEMA = {"str": S, "int": {"type": "integer"}, "float": {"type": "number"}, "bool": {"type": "boolean"},
                "enum": {"$ref": "#/components/schemas/Sort"}, "date": {"type": "string", "format": "date"},
-               "uuid": {"type": "string", "format": "uuid"}, "list": {"type": "array", "items": S}}
+               "uuid": {"type": "string", "format": "uuid"}, "list": {"type": "array", "items": S}, "listform": {"type": "array", "items": S}}
 COMPONENTS = {"schemas": {
     "Sort": {"type": "string", "enum": ["a", "b"]},
     "BodyModel": {"type": "object", "required": ["v"], "properties": {"v": {"type": "integer"}, "name": S}},
@@ -63,7 +63,7 @@ def concretize_op(op: dict, idx: int, method: str = "post", pathitem_level: froz
         pathps = list(reversed(pathps))
     path = f"/op{idx}" + "".join("/{%s}" % p["n"] for p in pathps) + "/end"
     def pdef(p):
-        return {"name": p["n"], "in": p["loc"], "required": bool(p["req"]), "schema": KIND_SCHEMA[p["kind"]]}
+        return {"name": p["n"], "in": p["loc"], "required": bool(p["req"]), "schema": KIND_SCHEMA[p["kind"]], **({"style": "form"} if p["kind"] == "listform" else {})}
     o = {"operationId": f"op{idx}", "tags": ["t"], "responses": {str(r["status"]): resp_spec(r) for r in op["rs"]}}
     oparams = [pdef(p) for i, p in enumerate(op["ps"]) if i not in pathitem_level]
     piparams = [pdef(p) for i, p in enumerate(op["ps"]) if i in pathitem_level]
